@@ -52,6 +52,11 @@ pub enum Act {
     /// Only in `coop` runs: the polling task returns to the tokio scheduler (end
     /// of a task poll: deferred wake-ups are delivered, the budget is renewed).
     Yield,
+    /// Only in `coop` runs, first action of a task poll: other work of the same
+    /// task consumed this many units of tokio's cooperative budget (0..=127)
+    /// before the graph run is polled, i.e. where in a task poll the budget runs
+    /// out is a generated choice.
+    Burn(usize),
 }
 
 #[derive(Clone, Debug, PartialEq, Eq, Hash, Serialize, Deserialize)]
@@ -375,6 +380,8 @@ pub trait Stepper {
     fn observe(&mut self);
     /// Record the end of a task poll in the action list.
     fn note_yield(&mut self);
+    /// Record a budget burn at the start of a task poll.
+    fn note_burn(&mut self, units: usize);
     /// Did the last poll return Pending (call / stream not finished)?
     fn pending(&self) -> bool;
 }
@@ -389,8 +396,16 @@ thread_local! {
 /// the scheduler once so that every wake-up deferred by tokio during `f` has been
 /// delivered when this returns.
 pub fn in_task_poll<R>(f: impl FnOnce() -> R) -> R {
+    in_task_poll_burn(0, f)
+}
+
+/// Like `in_task_poll`, after consuming `burn` (< 128) budget units.
+pub fn in_task_poll_burn<R>(burn: usize, f: impl FnOnce() -> R) -> R {
     RT.with(|rt| {
         rt.block_on(async move {
+            for _ in 0..burn.min(127) {
+                tokio::task::coop::consume_budget().await;
+            }
             let r = f();
             tokio::task::yield_now().await;
             r
@@ -751,7 +766,7 @@ impl Stepper for Runner<'_> {
                 }
                 true
             }
-            Act::Yield => false,
+            Act::Yield | Act::Burn(_) => false,
         }
     }
     fn set_deferred(&mut self, on: bool) {
@@ -762,6 +777,9 @@ impl Stepper for Runner<'_> {
     }
     fn note_yield(&mut self) {
         self.acts.push(Act::Yield);
+    }
+    fn note_burn(&mut self, units: usize) {
+        self.acts.push(Act::Burn(units));
     }
     fn pending(&self) -> bool {
         self.polled && self.ret.is_none()
@@ -1074,7 +1092,7 @@ impl Stepper for Consumer<'_> {
                 }
                 true
             }
-            Act::Yield => false,
+            Act::Yield | Act::Burn(_) => false,
         }
     }
     fn set_deferred(&mut self, on: bool) {
@@ -1085,6 +1103,9 @@ impl Stepper for Consumer<'_> {
     }
     fn note_yield(&mut self) {
         self.acts.push(Act::Yield);
+    }
+    fn note_burn(&mut self, units: usize) {
+        self.acts.push(Act::Burn(units));
     }
     fn pending(&self) -> bool {
         self.stream_live() && self.last_pending
